@@ -24,6 +24,7 @@ def run(ck, fb):
     r13m(ck, fb)
     r13n(ck, fb)
     r13o(ck, fb)
+    r13p(ck, fb)
 
 
 def _run0(ck, fb):
@@ -656,3 +657,30 @@ def r13o(ck, fb, R='R13o'):
         ck.require(bool(oks) and all(oks), R, 'time_check:absent-instance-not-reported:helper', t.where(),
                    'the re-validation helper does not answer "skip" for an absent instance (or no lookup of the instance was found in time_check at all)',
                    'helper skips an absent instance')
+
+
+def r13p(ck, fb, R='R13p'):
+    DN = 'rnacos::naming::cluster::instance_delay_notify::ClusterInstanceDelayNotifyActor::'
+    ck.rule(R, 'a queued change supersedes the queued heartbeat copy of the same instance, whatever the two time stamps say: the "marked unhealthy" '
+               'update carries the time of the LAST heartbeat, so it is never newer than the healthy copy that heartbeat queued; if that copy survives '
+               'it is flushed after the change (beats go out every 15 s, changes every 500 ms) and the peers list the expired instance as healthy '
+               'again. In delay_notify every path to the return drops the key from beat_instances_map; in delay_beat_notify a copy is queued only '
+               'when no change is pending for the key')
+    dly = ck.body(DN + 'delay_notify', R)
+    if dly:
+        rm = util.mut_calls_on_field(dly, 'beat_instances_map', r'HashMap::<K, V, S, A>::(remove|remove_entry|retain)$|OccupiedEntry::<.*>::remove', deep=1)
+        ck.require(bool(rm) and cfg.must_pass_before_return(dly, 0, {s0.bb for s0 in rm}), R, 'delay_notify:drops-queued-beat', dly.where(),
+                   'delay_notify can queue a change (update / unhealthy mark / removal) and keep the heartbeat copy queued for the same instance: the '
+                   'older healthy copy is sent to the other nodes after the change and undoes it there - an instance whose heartbeats stopped is '
+                   'listed as healthy again on every node but the responsible one', 'the queued heartbeat copy is dropped on every path')
+    db = ck.body(DN + 'delay_beat_notify', R)
+    if db:
+        ins = util.mut_calls_on_field(db, 'beat_instances_map', r'HashMap::<K, V, S, A>::insert$|Entry::<.*>::(insert|insert_entry|or_insert)|VacantEntry::<.*>::insert', deep=1)
+        ck.floor(R, 'heartbeat copies queued in delay_beat_notify', len(ins), 1)
+        for s0 in ins:
+            at = cfg.guard_atoms(db, s0.bb)
+            pend = [c0.term for c0 in db.calls(r'::contains_key$') if util.recv_fields(db, c0)[-1:] == ['instances_map']]
+            ok = any(a[0] == 'call' and a[2] is False and any(a[3] is t0 for t0 in pend) for a in at)
+            ck.require(ok, R, 'delay_beat_notify:only-without-pending-change', s0.where(),
+                       'a heartbeat copy is queued although a change for the same instance may be pending: the copy (healthy, older) is flushed after the change',
+                       'queued only when instances_map has no entry for the key')
